@@ -18,6 +18,7 @@ def run(ctx):
     ctx.step(_p13f, ctx)
     ctx.step(_p13g, ctx)
     ctx.step(_p3u, ctx)
+    ctx.step(_p15n, ctx)
 
 
 def _p13e(ctx):
@@ -420,3 +421,33 @@ def _p3u(ctx):
                     % (f['file'], b['line'], ', '.join(sorted(set(bad)))), where='%s:%d' % (f['file'], b['line']), sub='bb%d' % bi)
     if n == 0:
         ctx.add('P3u', 'T-GUARD', ctx.fn1(r'^multiqueue::MultiQueue::<.*>::try_recv_view$'), True, 'no call of user code with an unwind path in the queue modules', sub='none')
+
+
+INT_WIDTH = {'u8': 8, 'i8': 8, 'u16': 16, 'i16': 16, 'u32': 32, 'i32': 32, 'u64': 64, 'i64': 64, 'usize': 64, 'isize': 64, 'u128': 128, 'i128': 128}
+
+
+def _p15n(ctx):
+    """counts, distances, indices and capacities are word-sized everywhere in the queue code: a conversion to a narrower
+    integer type (`diff as u16`) truncates once the value passes that type's range - a lag of exactly 65536 becomes 0,
+    a full ring looks empty"""
+    F = ctx.F
+    n = 0
+    for name in sorted(F.fns):
+        f = F.fns[name]
+        if f.get('from_expansion') or not re.match(r'^<?&?(multiqueue|read_cursor|countedindex|memory|wait|atomicsignal|alloc)::', name):
+            continue
+        for bi, b in enumerate(f['blocks']):
+            if b['cleanup']:
+                continue
+            for s_ in b['stmts']:
+                if s_['k'] != 'assign' or s_['rv']['k'] != 'cast':
+                    continue
+                fr = (s_['rv'].get('from') or {}).get('s')
+                to = (s_['rv'].get('to') or {}).get('s')
+                if fr in INT_WIDTH and to in INT_WIDTH and INT_WIDTH[to] < INT_WIDTH[fr]:
+                    n += 1
+                    ctx.add('P15n', 'T-TYPE', name, False,
+                            '%s converts a %s to %s: counts, distances and capacities are word-sized in this crate, the narrower value wraps (e.g. a lag of exactly 2^%d reads 0: a full ring looks empty and unconsumed values are overwritten)'
+                            % (short_fn(name), fr, to, INT_WIDTH[to]), where='%s:%d' % (f['file'], s_.get('line') or b['line']), sub='bb%d.%s' % (bi, to))
+    if n == 0:
+        ctx.add('P15n', 'T-TYPE', ctx.fn1(r'^read_cursor::ReaderGroup::get_max_diff$'), True, 'no narrowing integer conversion in the queue modules', sub='none')
